@@ -17,8 +17,8 @@ import (
 	"net/http"
 	"net/netip"
 	"strconv"
-	"strings"
 	"sync"
+	"syscall"
 	"time"
 
 	"github.com/database64128/shadowsocks-go/conn"
@@ -122,13 +122,13 @@ type Obs struct {
 }
 
 type env struct {
-	unreachOK bool // 203.0.113.1:80 fails fast with ENETUNREACH in this sandbox
+	unreachOK bool // a connect to unreachAddr fails at once with ENETUNREACH in this sandbox
 	dnsAddr   string
 }
 
 const (
 	ssPSK        = "QzEzLXBzay1DMTMtcHNrIQ==" // 16 bytes
-	unreachAddr  = "203.0.113.1:80"
+	unreachAddr  = "255.255.255.255:80" // TCP connect to a broadcast address: the kernel itself answers ENETUNREACH (tcp_v4_connect), no routing involved
 	refusedAddr  = "127.0.0.1:1"
 	rejectDomain = "rejected.c13.test"
 	nxDomain     = "nx.c13.invalid"
@@ -862,18 +862,24 @@ func runScenario(sc *Scenario, ev *env) (obs Obs, err error) {
 
 func probeEnv() (*env, func(), error) {
 	ev := &env{}
-	t := time.Now()
-	c, err := net.DialTimeout("tcp", unreachAddr, 500*time.Millisecond)
-	if c != nil {
-		c.Close()
-	}
-	ev.unreachOK = err != nil && time.Since(t) < 200*time.Millisecond && strings.Contains(err.Error(), "network is unreachable")
+	ev.unreachOK = unreachNow()
 	stop, addr, err := startNXDNS()
 	if err != nil {
 		return nil, nil, err
 	}
 	ev.dnsAddr = addr
 	return ev, stop, nil
+}
+
+// unreachNow: does a plain connect to unreachAddr fail at once with ENETUNREACH right now? (The fault a scenario injects is
+// validated against the environment, not assumed.)
+func unreachNow() bool {
+	t := time.Now()
+	c, err := net.DialTimeout("tcp", unreachAddr, 2*time.Second)
+	if c != nil {
+		c.Close()
+	}
+	return err != nil && time.Since(t) < time.Second && errors.Is(err, syscall.ENETUNREACH)
 }
 
 // startNXDNS answers every DNS query (UDP and TCP) on a loopback port with NXDOMAIN.
